@@ -3,6 +3,7 @@ package props
 import (
 	"bytes"
 	"encoding/json"
+	"fmt"
 	"os"
 	"testing"
 
@@ -199,7 +200,7 @@ func checkC16(w *Workload) *Outcome {
 	})
 }
 
-var c16Fixtures = []string{"flat24", "nest", "tiny", "deep", "samename"}
+var c16Fixtures = []string{"flat24", "nest", "tiny", "deep", "samename", "rep3"}
 
 func TestC16(t *testing.T) {
 	cfg := wlCfg{fixtures: fixturesFromEnv(c16Fixtures), maxRecs: envInt("VERIF_MAXRECS", 80), gen: vt.DefaultGen}
@@ -223,6 +224,17 @@ func TestReplayC16(t *testing.T) {
 	if p == "" {
 		t.Skip()
 	}
+	var fc C16Case
+	if err := loadReplay(p, &fc); err == nil && fc.Foreign != nil {
+		replayResult(t, "C16", guard("C16", func() *Outcome {
+			file, o := buildForeign("C16", fc.Foreign)
+			if o != nil {
+				return o
+			}
+			return introspectionCheck("C16", file)
+		}))
+		return
+	}
 	var w Workload
 	if err := loadReplay(p, &w); err != nil {
 		t.Fatal(err)
@@ -231,3 +243,44 @@ func TestReplayC16(t *testing.T) {
 }
 
 var _ = fx.Get
+
+// TestC16Foreign: the same oracle on conformant files from the independent writer, which carry optional
+// footer / page-header fields the library's own writer never sets (created_by, key/value metadata,
+// column_orders, encoding_stats, column statistics, crc, legacy min/max, RowGroup fields 5..7).
+func TestC16Foreign(t *testing.T) {
+	cfg := foreignCfg{fixtures: fixturesFromEnv([]string{"flat24", "nest", "tiny"}), maxRecs: envInt("VERIF_MAXRECS", 40), gen: vt.DefaultGen}
+	rapid.Check(t, func(t *rapid.T) {
+		c := &ForeignCase{Fixture: rapid.SampledFrom(cfg.fixtures).Draw(t, "fixture")}
+		f := fx.Get(c.Fixture)
+		c.Batches = genBatches(t, f, cfg)
+		c.Phys = genPhys(t, f.Root, c.Batches, false)
+		o := guard("C16", func() *Outcome {
+			file, o := buildForeign("C16", c)
+			if o != nil {
+				return o
+			}
+			return introspectionCheck("C16", file)
+		})
+		extras := 0
+		for _, b := range []bool{c.Phys.CreatedBy, c.Phys.KV, c.Phys.ColumnOrders, c.Phys.RGExtras, c.Phys.FieldIDs} {
+			if b {
+				extras++
+			}
+		}
+		multi := false
+		for _, rg := range c.Phys.Chunks {
+			for _, ch := range rg {
+				if len(ch.Pages) >= 2 {
+					multi = true
+				}
+			}
+		}
+		record("C16", hashOf(c), extras > 0 && multi, []string{"foreign-file", "fixture=" + c.Fixture, fmt.Sprintf("footer-extras=%d", extras)}, c.sample)
+		verdict(t, "C16", &C16Case{Foreign: c}, o)
+	})
+}
+
+// C16Case lets a replay file hold either kind of input.
+type C16Case struct {
+	Foreign *ForeignCase `json:"foreign,omitempty"`
+}
